@@ -144,12 +144,24 @@ theorem cstep_newSpecialSymbol (sh : Shared D L) (sym : Sym) : CStep sh (newSpec
   · exact cstep_panic _ _
   · exact cstep_fuel _
 
+theorem cstep_openSymbol (sh : Shared D L) : CStep sh (openSymbol env sh) := by
+  intro sh' t h
+  obtain ⟨rfl, rfl | rfl⟩ := openSymbol_cases env h
+  · exact ⟨fun c => (by cases c), fun s _ => rfl⟩
+  · exact ⟨fun c => (by cases c), fun s c => (by cases c)⟩
+
+theorem cstep_openSpecialSymbol (sh : Shared D L) (sym : Sym) : CStep sh (openSpecialSymbol env sh sym) := by
+  intro sh' t h
+  rcases openSpecialSymbol_cases env h with ⟨h1, _⟩ | ⟨rfl, _⟩
+  · exact cstep_newSpecialSymbol sh sym sh' t h1
+  · exact ⟨fun c => (by cases c), fun s c => (by cases c)⟩
+
 theorem cstep_startSelecting (sh : Shared D L) : CStep sh (startSelecting env sh) := by
   unfold startSelecting
   repeat' split
   all_goals first
     | exact cstep_openPhrase env _
-    | exact cstep_newSpecialSymbol _ _
+    | exact cstep_openSpecialSymbol env _ _
     | cstep_leaf
 
 theorem cstep_startSelectingOrInputSpace (sh : Shared D L) : CStep sh (startSelectingOrInputSpace env sh) := by
@@ -157,7 +169,7 @@ theorem cstep_startSelectingOrInputSpace (sh : Shared D L) : CStep sh (startSele
   split
   · split
     · exact cstep_openPhrase env _
-    · exact cstep_newSpecialSymbol _ _
+    · exact cstep_openSpecialSymbol env _ _
   · split
     · next he =>
       intro sh' t h; injection h with h; injection h with h1 h2; subst h1 h2
@@ -179,6 +191,7 @@ theorem cstep_enteringDefault (sh : Shared D L) (ev : KeyEvent) : CStep sh (ente
     | exact cstep_withCom_absorb _ _ _
     | exact cstep_inputChar _ _ _
     | exact cstep_chineseFallback _ _ _
+    | exact cstep_openSymbol env _
     | cstep_leaf
 
 theorem cstep_enteringCtrlDigit (sh : Shared D L) (c : Nat) : CStep sh (enteringCtrlDigit env sh c) := by
@@ -186,6 +199,7 @@ theorem cstep_enteringCtrlDigit (sh : Shared D L) (c : Nat) : CStep sh (entering
   repeat' (first | split | (dsimp only; split))
   all_goals first
     | exact cstep_learnTrans _ _
+    | exact cstep_openSymbol env _
     | cstep_leaf
 
 theorem cstep_enteringTabInside (sh : Shared D L) : CStep sh (enteringTabInside env sh) := by
